@@ -31,13 +31,17 @@ var callStackCeiling = 2000
 type engine struct {
 	enabledFeatures   api.CoreFeatures
 	compiledFunctions map[wasm.ModuleID][]compiledFunction // guarded by mutex.
-	mux               sync.RWMutex
+	// refCounts counts the CompileModule calls per module ID that have not been balanced by DeleteCompiledModule yet:
+	// an engine can be shared by runtimes through a CompilationCache, and the same binary can be compiled more than once.
+	refCounts map[wasm.ModuleID]int // guarded by mutex.
+	mux       sync.RWMutex
 }
 
 func NewEngine(_ context.Context, enabledFeatures api.CoreFeatures, _ filecache.Cache) wasm.Engine {
 	return &engine{
 		enabledFeatures:   enabledFeatures,
 		compiledFunctions: map[wasm.ModuleID][]compiledFunction{},
+		refCounts:         map[wasm.ModuleID]int{},
 	}
 }
 
@@ -46,6 +50,7 @@ func (e *engine) Close() (err error) {
 	e.mux.Lock()
 	defer e.mux.Unlock()
 	clear(e.compiledFunctions)
+	clear(e.refCounts)
 	return
 }
 
@@ -62,13 +67,29 @@ func (e *engine) DeleteCompiledModule(m *wasm.Module) {
 func (e *engine) deleteCompiledFunctions(module *wasm.Module) {
 	e.mux.Lock()
 	defer e.mux.Unlock()
+	if n := e.refCounts[module.ID]; n > 1 {
+		e.refCounts[module.ID] = n - 1 // still in use by another CompiledModule.
+		return
+	}
+	delete(e.refCounts, module.ID)
 	delete(e.compiledFunctions, module.ID)
+}
+
+// retainCompiledFunctions is getCompiledFunctions that also counts the caller as a user of the entry.
+func (e *engine) retainCompiledFunctions(module *wasm.Module) (ok bool) {
+	e.mux.Lock()
+	defer e.mux.Unlock()
+	if _, ok = e.compiledFunctions[module.ID]; ok {
+		e.refCounts[module.ID]++
+	}
+	return
 }
 
 func (e *engine) addCompiledFunctions(module *wasm.Module, fs []compiledFunction) {
 	e.mux.Lock()
 	defer e.mux.Unlock()
 	e.compiledFunctions[module.ID] = fs
+	e.refCounts[module.ID]++
 }
 
 func (e *engine) getCompiledFunctions(module *wasm.Module) (fs []compiledFunction, ok bool) {
@@ -359,7 +380,7 @@ const callFrameStackSize = 0
 
 // CompileModule implements the same method as documented on wasm.Engine.
 func (e *engine) CompileModule(_ context.Context, module *wasm.Module, listeners []experimental.FunctionListener, ensureTermination bool) error {
-	if _, ok := e.getCompiledFunctions(module); ok { // cache hit!
+	if e.retainCompiledFunctions(module) { // cache hit!
 		return nil
 	}
 
